@@ -17,7 +17,16 @@ _PT = Chem.GetPeriodicTable()
 
 def corpus() -> List[Dict[str, str]]:
     rx = json.loads((core.VERIF / "cases" / "reactions.json").read_text())
-    return [r for r in rx if r["rsmi"].count(">>") == 1 and r["rsmi"].count(">") == 2 and all(r["rsmi"].split(">>"))]
+    out = []
+    for r in rx:
+        s = r["rsmi"]
+        if s.count(">>") != 1 or s.count(">") != 2 or not all(s.split(">>")):
+            continue
+        # every fragment must be a SMILES RDKit can read (a trailing '.' leaves an empty, invalid fragment)
+        if any((not f) or Chem.MolFromSmiles(f) is None for side in s.split(">>") for f in side.split(".")):
+            continue
+        out.append(r)
+    return out
 
 
 def elcode(sym: Any) -> int:
